@@ -138,7 +138,44 @@ func (s *c16Sender) header(m *c16Msg) interface{} {
 	return &rpc.Response{ServiceMethod: m.method, Seq: m.seq, Error: m.errstr}
 }
 
-func (s *c16Sender) send(m *c16Msg, exclusive bool) error {
+// c16SenderBuf is the slice the sender puts in the body: the payload bytes in a buffer of one of the shapes production
+// code uses. shape 0: exactly the payload (cap == len, nil-like when empty); 1: not owned, with spare capacity;
+// 2: exclusively owned pooled buffer GetBuffer(c)[:n] with spare capacity (what a tractserver read reply holds, and
+// `GetBuffer(n)[:0]` for a read at or past the end of a tract); 3: exclusively owned exact copy.
+func c16SenderBuf(r *vw.Rng, payload []byte) (data []byte, exclusive bool, shape string) {
+	n := len(payload)
+	if r == nil {
+		return payload, false, "exact"
+	}
+	switch r.Intn(8) {
+	case 0, 1, 2:
+		return payload, false, "exact"
+	case 3:
+		data = GetBuffer(n)
+		copy(data, payload)
+		return data, true, "exact-owned"
+	case 4:
+		c := n + r.PickInt(1, 2, 4096, 70000)
+		data = make([]byte, n, c)
+		copy(data, payload)
+		return data, false, "spare"
+	default:
+		// pooled: capacity from every size class at or above n
+		classes := []int{n + 1, 4096, 128*1024 + 65536, 128*1024 + 65536 + 1, buf1MBSize}
+		if vw.Thorough() || r.Chance(1, 8) {
+			classes = append(classes, buf1MBSize+1, buf4MBSize, buf4MBSize+1, buf8MBSize)
+		}
+		c := classes[r.Intn(len(classes))]
+		if c < n+1 {
+			c = n + 1
+		}
+		data = GetBuffer(c)[:n]
+		copy(data, payload)
+		return data, true, "pooled"
+	}
+}
+
+func (s *c16Sender) send(m *c16Msg, r *vw.Rng) error {
 	// reference gob encoding, made by an independent encoder fed the same sequence of values
 	mark := s.refbuf.Len()
 	if err := s.ref.Encode(s.header(m)); err != nil {
@@ -149,11 +186,9 @@ func (s *c16Sender) send(m *c16Msg, exclusive bool) error {
 	var refBody, body interface{}
 	if m.bulk {
 		refBody = &c16Bulk{Field: m.field, S: m.s}
-		data := m.payload
-		if exclusive { // the codec may recycle an exclusively owned buffer: give it a private copy
-			data = GetBuffer(len(m.payload))
-			copy(data, m.payload)
-		}
+		// (the codec may recycle an exclusively owned buffer, so those are private copies)
+		data, exclusive, shape := c16SenderBuf(r, m.payload)
+		vw.Stat(fmt.Sprintf("send.buf.%s.empty-%v", shape, len(m.payload) == 0), 1)
 		body = &c16Bulk{Field: m.field, S: m.s, Data: data, excl: exclusive}
 	} else {
 		refBody = &c16Plain{A: m.field, S: m.s}
@@ -660,7 +695,7 @@ func c16Stream(msgs []*c16Msg) []byte {
 func c16RunSeq(t *testing.T, tr *vw.Trace, r *vw.Rng, ctx *c16Ctx, isReq bool, msgs []*c16Msg, damage func(stream []byte) []byte, chunk int) {
 	snd := c16NewSender(isReq)
 	for _, m := range msgs {
-		if err := snd.send(m, r.Chance(1, 4)); err != nil {
+		if err := snd.send(m, r); err != nil {
 			t.Fatalf("send: %v", err)
 		}
 		m.traceSend(tr)
@@ -891,7 +926,7 @@ func TestVerifC16(t *testing.T) {
 		msgs := []*c16Msg{m1, m2}
 		snd := c16NewSender(isReq)
 		for _, m := range msgs {
-			if err := snd.send(m, false); err != nil {
+			if err := snd.send(m, nil); err != nil {
 				t.Fatalf("send: %v", err)
 			}
 			m.traceSend(tr)
